@@ -25,6 +25,13 @@ let rec length = function
 | [] -> O
 | _ :: l' -> S (length l')
 
+(** val app : 'a1 list -> 'a1 list -> 'a1 list **)
+
+let rec app l m =
+  match l with
+  | [] -> m
+  | a :: l1 -> a :: (app l1 m)
+
 type comparison =
 | Eq
 | Lt
@@ -36,6 +43,13 @@ let compOpp = function
 | Eq -> Eq
 | Lt -> Gt
 | Gt -> Lt
+
+(** val add : nat -> nat -> nat **)
+
+let rec add n0 m =
+  match n0 with
+  | O -> m
+  | S p0 -> S (add p0 m)
 
 module Nat =
  struct
@@ -83,6 +97,12 @@ let rec nth_error l = function
            | [] -> None
            | _ :: l0 -> nth_error l0 n1)
 
+(** val rev : 'a1 list -> 'a1 list **)
+
+let rec rev = function
+| [] -> []
+| x :: l' -> app (rev l') (x :: [])
+
 (** val map : ('a1 -> 'a2) -> 'a1 list -> 'a2 list **)
 
 let rec map f = function
@@ -100,6 +120,12 @@ let rec existsb f = function
 let rec forallb f = function
 | [] -> true
 | a :: l0 -> (&&) (f a) (forallb f l0)
+
+(** val filter : ('a1 -> bool) -> 'a1 list -> 'a1 list **)
+
+let rec filter f = function
+| [] -> []
+| x :: l0 -> if f x then x :: (filter f l0) else filter f l0
 
 (** val firstn : nat -> 'a1 list -> 'a1 list **)
 
@@ -313,6 +339,12 @@ module Coq_Pos =
     | XH -> (match q with
              | XH -> true
              | _ -> false)
+
+  (** val of_succ_nat : nat -> positive **)
+
+  let rec of_succ_nat = function
+  | O -> XH
+  | S x -> succ (of_succ_nat x)
  end
 
 module N =
@@ -371,12 +403,30 @@ module N =
                   | N0 -> Gt
                   | Npos m' -> Coq_Pos.compare n' m')
 
+  (** val eqb : n -> n -> bool **)
+
+  let eqb n0 m =
+    match n0 with
+    | N0 -> (match m with
+             | N0 -> true
+             | Npos _ -> false)
+    | Npos p0 -> (match m with
+                  | N0 -> false
+                  | Npos q -> Coq_Pos.eqb p0 q)
+
   (** val leb : n -> n -> bool **)
 
   let leb x y =
     match compare x y with
     | Gt -> false
     | _ -> true
+
+  (** val ltb : n -> n -> bool **)
+
+  let ltb x y =
+    match compare x y with
+    | Lt -> true
+    | _ -> false
 
   (** val pos_div_eucl : positive -> n -> n * n **)
 
@@ -397,6 +447,26 @@ module N =
          (match p0 with
           | XH -> ((Npos XH), N0)
           | _ -> (N0, (Npos XH))))
+
+  (** val div_eucl : n -> n -> n * n **)
+
+  let div_eucl a b =
+    match a with
+    | N0 -> (N0, N0)
+    | Npos na -> (match b with
+                  | N0 -> (N0, a)
+                  | Npos _ -> pos_div_eucl na b)
+
+  (** val modulo : n -> n -> n **)
+
+  let modulo a b =
+    snd (div_eucl a b)
+
+  (** val of_nat : nat -> n **)
+
+  let of_nat = function
+  | O -> N0
+  | S n' -> Npos (Coq_Pos.of_succ_nat n')
  end
 
 module Z =
@@ -706,12 +776,29 @@ let bltb a b =
   | Lt -> true
   | _ -> false
 
+(** val bleb : bytes -> bytes -> bool **)
+
+let bleb a b =
+  match bcompare a b with
+  | Gt -> false
+  | _ -> true
+
 (** val beqb : bytes -> bytes -> bool **)
 
 let beqb a b =
   match bcompare a b with
   | Eq -> true
   | _ -> false
+
+(** val has_prefix : bytes -> bytes -> bool **)
+
+let rec has_prefix p0 k =
+  match p0 with
+  | [] -> true
+  | x :: p' ->
+    (match k with
+     | [] -> false
+     | y :: k' -> (&&) (N.eqb x y) (has_prefix p' k'))
 
 (** val bitlen : z -> z **)
 
@@ -1260,3 +1347,777 @@ let rec coins_equal a b =
             then if Z.eqb xa xb then coins_equal a' b' else Some false
             else None
        else Some false)
+
+type 'v amap = (bytes * 'v) list
+
+(** val aget : 'a1 amap -> bytes -> 'a1 option **)
+
+let rec aget m k =
+  match m with
+  | [] -> None
+  | p0 :: r ->
+    let (k0, v0) = p0 in
+    (match bcompare k k0 with
+     | Eq -> Some v0
+     | Lt -> None
+     | Gt -> aget r k)
+
+(** val aset : 'a1 amap -> bytes -> 'a1 -> 'a1 amap **)
+
+let rec aset m k v =
+  match m with
+  | [] -> (k, v) :: []
+  | p0 :: r ->
+    let (k0, v0) = p0 in
+    (match bcompare k k0 with
+     | Eq -> (k, v) :: r
+     | Lt -> (k, v) :: m
+     | Gt -> (k0, v0) :: (aset r k v))
+
+(** val adel : 'a1 amap -> bytes -> 'a1 amap **)
+
+let rec adel m k =
+  match m with
+  | [] -> []
+  | p0 :: r ->
+    let (k0, v0) = p0 in
+    (match bcompare k k0 with
+     | Eq -> r
+     | Lt -> m
+     | Gt -> (k0, v0) :: (adel r k))
+
+type kv = bytes amap
+
+(** val in_domain : bytes -> bytes -> bytes option -> bool **)
+
+let in_domain k s e =
+  (&&) (bleb s k) (match e with
+                   | Some e' -> bltb k e'
+                   | None -> true)
+
+(** val dir : bool -> 'a1 list -> 'a1 list **)
+
+let dir asc l =
+  if asc then l else rev l
+
+(** val kv_range :
+    'a1 amap -> bytes -> bytes option -> bool -> (bytes * 'a1) list **)
+
+let kv_range m s e asc =
+  dir asc (filter (fun p0 -> in_domain (fst p0) s e) m)
+
+(** val prefix_end_rev : bytes -> bytes option **)
+
+let rec prefix_end_rev = function
+| [] -> None
+| x :: r' ->
+  if N.eqb x (Npos (XI (XI (XI (XI (XI (XI (XI XH))))))))
+  then prefix_end_rev r'
+  else Some ((N.add x (Npos XH)) :: r')
+
+(** val prefix_end_bytes : bytes -> bytes option **)
+
+let prefix_end_bytes p0 = match p0 with
+| [] -> None
+| _ :: _ ->
+  (match prefix_end_rev (rev p0) with
+   | Some r -> Some (rev r)
+   | None -> None)
+
+(** val inclusive_end_bytes : bytes -> bytes **)
+
+let inclusive_end_bytes b =
+  app b (N0 :: [])
+
+(** val max_u64 : n **)
+
+let max_u64 =
+  Npos (XI (XI (XI (XI (XI (XI (XI (XI (XI (XI (XI (XI (XI (XI (XI (XI (XI
+    (XI (XI (XI (XI (XI (XI (XI (XI (XI (XI (XI (XI (XI (XI (XI (XI (XI (XI
+    (XI (XI (XI (XI (XI (XI (XI (XI (XI (XI (XI (XI (XI (XI (XI (XI (XI (XI
+    (XI (XI (XI (XI (XI (XI (XI (XI (XI (XI
+    XH)))))))))))))))))))))))))))))))))))))))))))))))))))))))))))))))
+
+type gascfg = { g_has : n; g_delete : n; g_read_flat : n; g_read_byte : 
+                n; g_write_flat : n; g_write_byte : n; g_iter_flat : 
+                n }
+
+type pkind =
+| POutOfGas
+| PGasOverflow
+| PInvalidIter
+| POther
+
+type 'a res =
+| Ok of 'a
+| Panic of pkind
+
+type tline = (n * bytes) * bytes
+
+type world = { w_limit : n option; w_consumed : n; w_trace : tline list;
+               w_cfg : gascfg }
+
+(** val set_consumed : world -> n -> world **)
+
+let set_consumed w c =
+  { w_limit = w.w_limit; w_consumed = c; w_trace = w.w_trace; w_cfg =
+    w.w_cfg }
+
+(** val log : world -> tline -> world **)
+
+let log w l =
+  { w_limit = w.w_limit; w_consumed = w.w_consumed; w_trace =
+    (l :: w.w_trace); w_cfg = w.w_cfg }
+
+(** val consume : n -> world -> unit res * world **)
+
+let consume amount w =
+  if N.ltb (N.sub max_u64 w.w_consumed) amount
+  then ((Panic PGasOverflow), (set_consumed w N0))
+  else let c = N.add w.w_consumed amount in
+       let w' = set_consumed w c in
+       (match w.w_limit with
+        | Some lim ->
+          if N.ltb lim c then ((Panic POutOfGas), w') else ((Ok ()), w')
+        | None -> ((Ok ()), w'))
+
+(** val mul64 : n -> n -> n **)
+
+let mul64 a b =
+  N.modulo (N.mul a b) (Npos (XO (XO (XO (XO (XO (XO (XO (XO (XO (XO (XO (XO
+    (XO (XO (XO (XO (XO (XO (XO (XO (XO (XO (XO (XO (XO (XO (XO (XO (XO (XO
+    (XO (XO (XO (XO (XO (XO (XO (XO (XO (XO (XO (XO (XO (XO (XO (XO (XO (XO
+    (XO (XO (XO (XO (XO (XO (XO (XO (XO (XO (XO (XO (XO (XO (XO (XO
+    XH)))))))))))))))))))))))))))))))))))))))))))))))))))))))))))))))))
+
+(** val blen : bytes -> n **)
+
+let blen b =
+  N.of_nat (length b)
+
+(** val olen : bytes option -> n **)
+
+let olen = function
+| Some x -> blen x
+| None -> N0
+
+type centry = { ce_val : bytes option; ce_deleted : bool; ce_dirty : bool }
+
+type mem_item = bytes * bytes option
+
+type cstate = { c_cache : centry amap; c_unsorted : unit amap;
+                c_sorted : mem_item list }
+
+(** val c_empty : cstate **)
+
+let c_empty =
+  { c_cache = []; c_unsorted = []; c_sorted = [] }
+
+(** val set_cache_value :
+    cstate -> bytes -> bytes option -> bool -> bool -> cstate **)
+
+let set_cache_value c k v deleted dirty =
+  { c_cache =
+    (aset c.c_cache k { ce_val = v; ce_deleted = deleted; ce_dirty = dirty });
+    c_unsorted = (if dirty then aset c.c_unsorted k () else c.c_unsorted);
+    c_sorted = c.c_sorted }
+
+(** val merge_dirty : mem_item list -> mem_item list -> mem_item list **)
+
+let rec merge_dirty un =
+  let rec go so =
+    match un with
+    | [] -> so
+    | u :: un' ->
+      (match so with
+       | [] -> un
+       | s :: so' ->
+         (match bcompare (fst u) (fst s) with
+          | Eq -> u :: (merge_dirty un' so')
+          | Lt -> u :: (merge_dirty un' so)
+          | Gt -> s :: (go so')))
+  in go
+
+(** val cache_val : cstate -> bytes -> bytes option **)
+
+let cache_val c k =
+  match aget c.c_cache k with
+  | Some e -> e.ce_val
+  | None -> None
+
+(** val dirty_items : cstate -> bytes -> bytes option -> cstate **)
+
+let dirty_items c s e =
+  let moved = filter (fun p0 -> in_domain (fst p0) s e) c.c_unsorted in
+  let un = map (fun p0 -> ((fst p0), (cache_val c (fst p0)))) moved in
+  { c_cache = c.c_cache; c_unsorted =
+  (filter (fun p0 -> negb (in_domain (fst p0) s e)) c.c_unsorted); c_sorted =
+  (merge_dirty un c.c_sorted) }
+
+(** val mem_scan :
+    bool -> bytes -> bytes option -> mem_item list -> mem_item list **)
+
+let rec mem_scan entered s e = function
+| [] -> []
+| it :: r ->
+  if in_domain (fst it) s e
+  then it :: (mem_scan true s e r)
+  else if entered then [] else mem_scan false s e r
+
+(** val mem_items :
+    cstate -> bytes -> bytes option -> bool -> mem_item list **)
+
+let mem_items c s e asc =
+  dir asc (mem_scan false s e c.c_sorted)
+
+(** val cmp : bool -> bytes -> bytes -> comparison **)
+
+let cmp asc a b =
+  if asc then bcompare a b else compOpp (bcompare a b)
+
+type miter = { mi_par : (bytes * bytes) list; mi_cac : mem_item list;
+               mi_asc : bool }
+
+(** val mk_miter : (bytes * bytes) list -> mem_item list -> bool -> miter **)
+
+let mk_miter p0 c a =
+  { mi_par = p0; mi_cac = c; mi_asc = a }
+
+(** val skip_cache_deletes :
+    bool -> bytes option -> mem_item list -> mem_item list **)
+
+let rec skip_cache_deletes asc until cac = match cac with
+| [] -> cac
+| m :: r ->
+  let (k, o) = m in
+  (match o with
+   | Some _ -> cac
+   | None ->
+     (match until with
+      | Some u ->
+        (match cmp asc k u with
+         | Lt -> skip_cache_deletes asc until r
+         | _ -> cac)
+      | None -> skip_cache_deletes asc until r))
+
+(** val skip_until : nat -> miter -> (miter * bool) option **)
+
+let rec skip_until fuel it =
+  match fuel with
+  | O -> None
+  | S f ->
+    (match it.mi_par with
+     | [] ->
+       let c = skip_cache_deletes it.mi_asc None it.mi_cac in
+       Some ((mk_miter [] c it.mi_asc),
+       (match c with
+        | [] -> false
+        | _ :: _ -> true))
+     | p0 :: pr ->
+       let (kp, _) = p0 in
+       (match it.mi_cac with
+        | [] -> Some (it, true)
+        | m :: cr ->
+          let (kc, vc) = m in
+          (match cmp it.mi_asc kp kc with
+           | Eq ->
+             (match vc with
+              | Some _ -> Some (it, true)
+              | None -> skip_until f (mk_miter pr cr it.mi_asc))
+           | Lt -> Some (it, true)
+           | Gt ->
+             (match vc with
+              | Some _ -> Some (it, true)
+              | None ->
+                skip_until f
+                  (mk_miter it.mi_par
+                    (skip_cache_deletes it.mi_asc (Some kp) it.mi_cac)
+                    it.mi_asc)))))
+
+(** val m_current : miter -> (bytes * bytes option) option **)
+
+let m_current it =
+  match it.mi_par with
+  | [] -> (match it.mi_cac with
+           | [] -> None
+           | m :: _ -> Some m)
+  | p0 :: _ ->
+    let (kp, vp) = p0 in
+    (match it.mi_cac with
+     | [] -> Some (kp, (Some vp))
+     | m :: _ ->
+       let (kc, vc) = m in
+       (match cmp it.mi_asc kp kc with
+        | Eq -> Some (kp, vc)
+        | Lt -> Some (kp, (Some vp))
+        | Gt -> Some (kc, vc)))
+
+(** val m_next : miter -> miter **)
+
+let m_next it =
+  match it.mi_par with
+  | [] ->
+    (match it.mi_cac with
+     | [] -> it
+     | _ :: cr -> mk_miter [] cr it.mi_asc)
+  | p0 :: pr ->
+    let (kp, _) = p0 in
+    (match it.mi_cac with
+     | [] -> mk_miter pr [] it.mi_asc
+     | m :: cr ->
+       let (kc, _) = m in
+       (match cmp it.mi_asc kp kc with
+        | Eq -> mk_miter pr cr it.mi_asc
+        | Lt -> mk_miter pr it.mi_cac it.mi_asc
+        | Gt -> mk_miter it.mi_par cr it.mi_asc))
+
+(** val m_collect : nat -> miter -> (bytes * bytes) list option **)
+
+let rec m_collect fuel it =
+  match fuel with
+  | O -> None
+  | S f ->
+    let sf = S (add (length it.mi_par) (length it.mi_cac)) in
+    (match skip_until sf it with
+     | Some p0 ->
+       let (it1, b) = p0 in
+       if b
+       then (match m_current it1 with
+             | Some p1 ->
+               let (k, o) = p1 in
+               (match o with
+                | Some v ->
+                  (match m_collect f (m_next it1) with
+                   | Some r -> Some ((k, v) :: r)
+                   | None -> None)
+                | None -> None)
+             | None -> None)
+       else Some []
+     | None -> None)
+
+(** val merge_run :
+    (bytes * bytes) list -> mem_item list -> bool -> (bytes * bytes) list
+    option **)
+
+let merge_run par cac asc =
+  m_collect (S (add (length par) (length cac))) (mk_miter par cac asc)
+
+type store =
+| Base of kv
+| Cache of cstate * store
+| Prefix of bytes * store
+| Gas of store
+| Trace of store
+
+type iter0 =
+| IList of (bytes * bytes) list
+| IPrefix of bytes * bool * iter0
+| IGas of iter0
+| ITrace of iter0
+
+(** val strip : bytes -> bytes -> bytes **)
+
+let strip pfx k =
+  skipn (length pfx) k
+
+(** val bind :
+    ('a1 res * world) -> ('a1 -> world -> 'a2 res * world) -> 'a2 res * world **)
+
+let bind x f =
+  let (r, w) = x in (match r with
+                     | Ok a -> f a w
+                     | Panic k -> ((Panic k), w))
+
+(** val it_valid : iter0 -> bool **)
+
+let rec it_valid = function
+| IList l -> (match l with
+              | [] -> false
+              | _ :: _ -> true)
+| IPrefix (_, v, inner) -> (&&) v (it_valid inner)
+| IGas inner -> it_valid inner
+| ITrace inner -> it_valid inner
+
+(** val it_key : iter0 -> world -> bytes res * world **)
+
+let rec it_key it w =
+  match it with
+  | IList l ->
+    (match l with
+     | [] -> ((Panic PInvalidIter), w)
+     | p0 :: _ -> let (k, _) = p0 in ((Ok k), w))
+  | IPrefix (pfx, v, inner) ->
+    if v
+    then bind (it_key inner w) (fun k w' -> ((Ok (strip pfx k)), w'))
+    else ((Panic PInvalidIter), w)
+  | IGas inner -> it_key inner w
+  | ITrace inner ->
+    bind (it_key inner w) (fun k w' -> ((Ok k),
+      (log w' (((Npos (XI XH)), k), []))))
+
+(** val it_value : iter0 -> world -> bytes res * world **)
+
+let rec it_value it w =
+  match it with
+  | IList l ->
+    (match l with
+     | [] -> ((Panic PInvalidIter), w)
+     | p0 :: _ -> let (_, v) = p0 in ((Ok v), w))
+  | IPrefix (_, v, inner) ->
+    if v then it_value inner w else ((Panic PInvalidIter), w)
+  | IGas inner -> it_value inner w
+  | ITrace inner ->
+    bind (it_value inner w) (fun v w' -> ((Ok v),
+      (log w' (((Npos (XO (XO XH))), []), v))))
+
+(** val seek_gas : iter0 -> world -> unit res * world **)
+
+let seek_gas inner w =
+  bind (it_value inner w) (fun v w1 ->
+    bind (consume (mul64 w1.w_cfg.g_read_byte (blen v)) w1) (fun _ w2 ->
+      consume w2.w_cfg.g_iter_flat w2))
+
+(** val it_next : iter0 -> world -> (unit res * iter0) * world **)
+
+let rec it_next it w =
+  match it with
+  | IList l ->
+    (match l with
+     | [] -> (((Panic PInvalidIter), it), w)
+     | _ :: r -> (((Ok ()), (IList r)), w))
+  | IPrefix (pfx, v, inner) ->
+    if v
+    then let (p0, w') = it_next inner w in
+         let (r, inner') = p0 in
+         (match r with
+          | Ok _ ->
+            if it_valid inner'
+            then let (r0, w'') = it_key inner' w' in
+                 (match r0 with
+                  | Ok k ->
+                    (((Ok ()), (IPrefix (pfx, (has_prefix pfx k), inner'))),
+                      w'')
+                  | Panic p1 ->
+                    (((Panic p1), (IPrefix (pfx, v, inner'))), w''))
+            else (((Ok ()), (IPrefix (pfx, false, inner'))), w')
+          | Panic p1 -> (((Panic p1), (IPrefix (pfx, v, inner'))), w'))
+    else (((Panic PInvalidIter), it), w)
+  | IGas inner ->
+    let (r, w1) = if it_valid inner then seek_gas inner w else ((Ok ()), w) in
+    (match r with
+     | Ok _ ->
+       let (p0, w2) = it_next inner w1 in
+       let (r2, inner') = p0 in ((r2, (IGas inner')), w2)
+     | Panic p0 -> (((Panic p0), it), w1))
+  | ITrace inner ->
+    let (p0, w') = it_next inner w in
+    let (r, inner') = p0 in ((r, (ITrace inner')), w')
+
+(** val drain : iter0 -> (bytes * bytes) list **)
+
+let rec drain = function
+| IList l -> l
+| IPrefix (pfx, v, inner) ->
+  if v
+  then let rec take = function
+       | [] -> []
+       | p0 :: r ->
+         let (k, x) = p0 in
+         if has_prefix pfx k then ((strip pfx k), x) :: (take r) else []
+       in take (drain inner)
+  else []
+| _ -> []
+
+(** val s_get :
+    store -> bytes -> world -> (bytes option res * store) * world **)
+
+let rec s_get s k w =
+  match s with
+  | Base m -> (((Ok (aget m k)), s), w)
+  | Cache (c, p0) ->
+    (match aget c.c_cache k with
+     | Some e -> (((Ok e.ce_val), s), w)
+     | None ->
+       let (p1, w') = s_get p0 k w in
+       let (r, p') = p1 in
+       (match r with
+        | Ok v ->
+          (((Ok v), (Cache ((set_cache_value c k v false false), p'))), w')
+        | Panic x -> (((Panic x), (Cache (c, p'))), w')))
+  | Prefix (pfx, p0) ->
+    let (p1, w') = s_get p0 (app pfx k) w in
+    let (r, p') = p1 in ((r, (Prefix (pfx, p'))), w')
+  | Gas p0 ->
+    let (r, w1) = consume w.w_cfg.g_read_flat w in
+    (match r with
+     | Ok _ ->
+       let (p1, w2) = s_get p0 k w1 in
+       let (r0, p') = p1 in
+       (match r0 with
+        | Ok v ->
+          let (r1, w3) = consume (mul64 w2.w_cfg.g_read_byte (olen v)) w2 in
+          (match r1 with
+           | Ok _ -> (((Ok v), (Gas p')), w3)
+           | Panic x -> (((Panic x), (Gas p')), w3))
+        | Panic x -> (((Panic x), (Gas p')), w2))
+     | Panic x -> (((Panic x), s), w1))
+  | Trace p0 ->
+    let (p1, w') = s_get p0 k w in
+    let (r, p') = p1 in
+    (match r with
+     | Ok v ->
+       (((Ok v), (Trace p')),
+         (log w' (((Npos XH), k), (match v with
+                                   | Some x -> x
+                                   | None -> []))))
+     | Panic x -> (((Panic x), (Trace p')), w'))
+
+(** val s_has : store -> bytes -> world -> (bool res * store) * world **)
+
+let rec s_has s k w =
+  match s with
+  | Base m ->
+    (((Ok (match aget m k with
+           | Some _ -> true
+           | None -> false)), s), w)
+  | Cache (c, p0) ->
+    (match aget c.c_cache k with
+     | Some e ->
+       (((Ok (match e.ce_val with
+              | Some _ -> true
+              | None -> false)), s), w)
+     | None ->
+       let (p1, w') = s_get p0 k w in
+       let (r, p') = p1 in
+       (match r with
+        | Ok v ->
+          (((Ok (match v with
+                 | Some _ -> true
+                 | None -> false)), (Cache
+            ((set_cache_value c k v false false), p'))), w')
+        | Panic x -> (((Panic x), (Cache (c, p'))), w')))
+  | Prefix (pfx, p0) ->
+    let (p1, w') = s_has p0 (app pfx k) w in
+    let (r, p') = p1 in ((r, (Prefix (pfx, p'))), w')
+  | Gas p0 ->
+    let (r, w1) = consume w.w_cfg.g_has w in
+    (match r with
+     | Ok _ ->
+       let (p1, w2) = s_has p0 k w1 in
+       let (r0, p') = p1 in ((r0, (Gas p')), w2)
+     | Panic x -> (((Panic x), s), w1))
+  | Trace p0 ->
+    let (p1, w') = s_has p0 k w in let (r, p') = p1 in ((r, (Trace p')), w')
+
+(** val s_set :
+    store -> bytes -> bytes -> world -> (unit res * store) * world **)
+
+let rec s_set s k v w =
+  match s with
+  | Base m -> (((Ok ()), (Base (aset m k v))), w)
+  | Cache (c, p0) ->
+    (((Ok ()), (Cache ((set_cache_value c k (Some v) false true), p0))), w)
+  | Prefix (pfx, p0) ->
+    let (p1, w') = s_set p0 (app pfx k) v w in
+    let (r, p') = p1 in ((r, (Prefix (pfx, p'))), w')
+  | Gas p0 ->
+    let (r, w1) = consume w.w_cfg.g_write_flat w in
+    (match r with
+     | Ok _ ->
+       let (r0, w2) = consume (mul64 w1.w_cfg.g_write_byte (blen v)) w1 in
+       (match r0 with
+        | Ok _ ->
+          let (p1, w3) = s_set p0 k v w2 in
+          let (r1, p') = p1 in ((r1, (Gas p')), w3)
+        | Panic x -> (((Panic x), s), w2))
+     | Panic x -> (((Panic x), s), w1))
+  | Trace p0 ->
+    let (p1, w') = s_set p0 k v (log w ((N0, k), v)) in
+    let (r, p') = p1 in ((r, (Trace p')), w')
+
+(** val s_delete : store -> bytes -> world -> (unit res * store) * world **)
+
+let rec s_delete s k w =
+  match s with
+  | Base m -> (((Ok ()), (Base (adel m k))), w)
+  | Cache (c, p0) ->
+    (((Ok ()), (Cache ((set_cache_value c k None true true), p0))), w)
+  | Prefix (pfx, p0) ->
+    let (p1, w') = s_delete p0 (app pfx k) w in
+    let (r, p') = p1 in ((r, (Prefix (pfx, p'))), w')
+  | Gas p0 ->
+    let (r, w1) = consume w.w_cfg.g_delete w in
+    (match r with
+     | Ok _ ->
+       let (p1, w2) = s_delete p0 k w1 in
+       let (r0, p') = p1 in ((r0, (Gas p')), w2)
+     | Panic x -> (((Panic x), s), w1))
+  | Trace p0 ->
+    let (p1, w') = s_delete p0 k (log w (((Npos (XO XH)), k), [])) in
+    let (r, p') = p1 in ((r, (Trace p')), w')
+
+(** val s_iter :
+    store -> bytes -> bytes option -> bool -> world -> (iter0
+    res * store) * world **)
+
+let rec s_iter s st en asc w =
+  match s with
+  | Base m -> (((Ok (IList (kv_range m st en asc))), s), w)
+  | Cache (c, p0) ->
+    let (p1, w') = s_iter p0 st en asc w in
+    let (r, p') = p1 in
+    (match r with
+     | Ok ip ->
+       let c' = dirty_items c st en in
+       (match merge_run (drain ip) (mem_items c' st en asc) asc with
+        | Some l -> (((Ok (IList l)), (Cache (c', p'))), w')
+        | None -> (((Panic POther), (Cache (c', p'))), w'))
+     | Panic x -> (((Panic x), (Cache (c, p'))), w'))
+  | Prefix (pfx, p0) ->
+    let newend =
+      match en with
+      | Some e -> Some (app pfx e)
+      | None -> prefix_end_bytes pfx
+    in
+    let (p1, w') = s_iter p0 (app pfx st) newend asc w in
+    let (r, p') = p1 in
+    (match r with
+     | Ok ip ->
+       if it_valid ip
+       then let (r0, w'') = it_key ip w' in
+            (match r0 with
+             | Ok k ->
+               (((Ok (IPrefix (pfx, (has_prefix pfx k), ip))), (Prefix (pfx,
+                 p'))), w'')
+             | Panic x -> (((Panic x), (Prefix (pfx, p'))), w''))
+       else (((Ok (IPrefix (pfx, false, ip))), (Prefix (pfx, p'))), w')
+     | Panic x -> (((Panic x), (Prefix (pfx, p'))), w'))
+  | Gas p0 ->
+    let (p1, w') = s_iter p0 st en asc w in
+    let (r, p') = p1 in
+    (match r with
+     | Ok ip ->
+       if it_valid ip
+       then let (r0, w'') = seek_gas ip w' in
+            (match r0 with
+             | Ok _ -> (((Ok (IGas ip)), (Gas p')), w'')
+             | Panic x -> (((Panic x), (Gas p')), w''))
+       else (((Ok (IGas ip)), (Gas p')), w')
+     | Panic x -> (((Panic x), (Gas p')), w'))
+  | Trace p0 ->
+    let (p1, w') = s_iter p0 st en asc w in
+    let (r, p') = p1 in
+    (((match r with
+       | Ok ip -> Ok (ITrace ip)
+       | Panic x -> Panic x), (Trace p')), w')
+
+(** val write_entries :
+    centry amap -> store -> world -> (unit res * store) * world **)
+
+let rec write_entries es p0 w =
+  match es with
+  | [] -> (((Ok ()), p0), w)
+  | p1 :: r ->
+    let (k, e) = p1 in
+    if e.ce_dirty
+    then let (p2, w1) =
+           if e.ce_deleted
+           then s_delete p0 k w
+           else (match e.ce_val with
+                 | Some v -> s_set p0 k v w
+                 | None -> (((Ok ()), p0), w))
+         in
+         let (res1, p3) = p2 in
+         (match res1 with
+          | Ok _ -> write_entries r p3 w1
+          | Panic x -> (((Panic x), p3), w1))
+    else write_entries r p0 w
+
+(** val c_write : store -> world -> (unit res * store) * world **)
+
+let c_write s w =
+  match s with
+  | Cache (c, p0) ->
+    let (p1, w') = write_entries c.c_cache p0 w in
+    let (r, p') = p1 in
+    (match r with
+     | Ok _ -> (((Ok ()), (Cache (c_empty, p'))), w')
+     | Panic x -> (((Panic x), (Cache (c, p'))), w'))
+  | _ -> (((Ok ()), s), w)
+
+(** val at_depth :
+    nat -> (store -> world -> ('a1 res * store) * world) -> store -> world ->
+    ('a1 res * store) * world **)
+
+let rec at_depth d f s w =
+  match d with
+  | O -> f s w
+  | S d' ->
+    (match s with
+     | Base _ -> f s w
+     | Cache (c, p0) ->
+       let (p1, w') = at_depth d' f p0 w in
+       let (r, p') = p1 in ((r, (Cache (c, p'))), w')
+     | Prefix (pfx, p0) ->
+       let (p1, w') = at_depth d' f p0 w in
+       let (r, p') = p1 in ((r, (Prefix (pfx, p'))), w')
+     | Gas p0 ->
+       let (p1, w') = at_depth d' f p0 w in
+       let (r, p') = p1 in ((r, (Gas p')), w')
+     | Trace p0 ->
+       let (p1, w') = at_depth d' f p0 w in
+       let (r, p') = p1 in ((r, (Trace p')), w'))
+
+(** val it_collect :
+    nat -> iter0 -> world -> (bytes * bytes) list -> (bytes * bytes) list
+    res * world **)
+
+let rec it_collect fuel it w acc =
+  match fuel with
+  | O -> ((Panic POther), w)
+  | S f ->
+    if it_valid it
+    then let (r, w1) = it_key it w in
+         (match r with
+          | Ok k ->
+            let (r0, w2) = it_value it w1 in
+            (match r0 with
+             | Ok v ->
+               let (p0, w3) = it_next it w2 in
+               let (r1, it') = p0 in
+               (match r1 with
+                | Ok _ -> it_collect f it' w3 ((k, v) :: acc)
+                | Panic x -> ((Panic x), w3))
+             | Panic x -> ((Panic x), w2))
+          | Panic x -> ((Panic x), w1))
+    else ((Ok (rev acc)), w)
+
+(** val it_size : iter0 -> nat **)
+
+let rec it_size = function
+| IList l -> length l
+| IPrefix (_, _, i) -> it_size i
+| IGas i -> it_size i
+| ITrace i -> it_size i
+
+(** val s_iter_all :
+    store -> bytes -> bytes option -> bool -> world -> ((bytes * bytes) list
+    res * store) * world **)
+
+let s_iter_all s st en asc w =
+  let (p0, w') = s_iter s st en asc w in
+  let (r, s') = p0 in
+  (match r with
+   | Ok it ->
+     let (r0, w'') = it_collect (S (it_size it)) it w' [] in ((r0, s'), w'')
+   | Panic x -> (((Panic x), s'), w'))
+
+(** val kv_gas_config : gascfg **)
+
+let kv_gas_config =
+  { g_has = (Npos (XO (XO (XO (XI (XO (XI (XI (XI (XI XH))))))))));
+    g_delete = (Npos (XO (XO (XO (XI (XO (XI (XI (XI (XI XH))))))))));
+    g_read_flat = (Npos (XO (XO (XO (XI (XO (XI (XI (XI (XI XH))))))))));
+    g_read_byte = (Npos (XI XH)); g_write_flat = (Npos (XO (XO (XO (XO (XI
+    (XO (XI (XI (XI (XI XH))))))))))); g_write_byte = (Npos (XO (XI (XI (XI
+    XH))))); g_iter_flat = (Npos (XO (XI (XI (XI XH))))) }
